@@ -88,23 +88,26 @@ func (e *Encoder) writeMap(data interface{}) (int, error) {
 	// object data MUST not be unpacked
 	vv := reflect.ValueOf(data)
 
+	// a nil or empty map is sent as null, which takes no ref ordinal:
+	// test for it before the ref table
+	raw := UnpackPtrValue(vv)
+	// check nil map
+	if raw.Kind() == reflect.Ptr && !raw.Elem().IsValid() {
+		_, err := e.writeBT(_nilTag)
+		return 0, err
+	}
+
+	if raw.Kind() == reflect.Map && raw.Len() == 0 {
+		_, err := e.writeBT(_nilTag)
+		return 0, err
+	}
+
 	// check ref
 	if n, ok := e.checkEncodeRefMap(vv); ok {
 		return e.writeRef(n)
 	}
 
-	vv = UnpackPtrValue(vv)
-	// check nil map
-	if vv.Kind() == reflect.Ptr && !vv.Elem().IsValid() {
-		_, err := e.writeBT(_nilTag)
-		return 0, err
-	}
-
-	keys := vv.MapKeys()
-	if len(keys) == 0 {
-		_, err := e.writeBT(_nilTag)
-		return 0, err
-	}
+	vv = raw
 
 	typ := vv.Type()
 
